@@ -385,8 +385,13 @@ def load(I, arr, idx, node, env):
             elif arr.ndim == 1:
                 if "gen" in arr.meta:
                     val = arr.meta["gen"](it)
-                elif isinstance(val, Expr):
-                    val = alg.fn("pick", val, it)
+                elif isinstance(val, Expr) and not (dim_is_one(arr.shape[0]) or not any(a.kind == "fn" and a.name in ("idx", "elem", "fftidx") for a in val.atoms())):
+                    ats = val.atoms()
+                    if any(a.kind == "fn" and a.name in ("idx", "fftidx") for a in ats):
+                        val = alg.fn("pick", val, it)
+                    else:
+                        # element i of a pointwise function of caller arrays: elem(X) -> at(X, i)
+                        val = val.subs({a: alg.fn("at", a.args[0], it, pos=a.pos) for a in ats if a.kind == "fn" and a.name == "elem"})
             axis += 1
         elif isinstance(it, Arr) and it.dtype == "bool":
             # boolean mask over it.ndim axes
@@ -508,7 +513,8 @@ def store(I, arr, idx, v, node, env):
                 I.event("typestate", node, "entry [0,0] addressed as the mean mode while the array is in centred layout")
             applies = applies and I.ctx == "mean"
         else:
-            I.event("unsupported", node, "store at fixed grid index %r" % (point,))
+            I.event("spectral-line-store" if (arr.meta.get("spec") is not None or level_axis(arr) is not None) else "unsupported", node,
+                    "store at fixed grid index %r of %s" % (point, arr.name))
             return None
     elif arr.ndim >= 2 and I.ctx == "mean" and not any(isinstance(it, Arr) for it in items):
         pass  # full-slice store also covers the mean point
@@ -894,6 +900,9 @@ def np_array(I, args, kwargs, node):
     if isinstance(x, Tup):
         if all(isinstance(i, Expr) for i in x.items):
             n = len(x.items)
+            pd = [a.name for i in x.items for a in i.top_atoms() if a.kind == "sym" and a.meta == "param"] if all(len(i.n) == 1 for i in x.items) else []
+            if pd and dt is None and all(i.as_mono() is not None and i.as_mono()[0] in (alg.C1, -alg.C1) and len(i.as_mono()[1]) == 1 for i in x.items):
+                dt = "inherit:%s" % pd[0]
             if n == 1:
                 return Arr((ONE,), x.items[0], dt or _scalar_dtype(x.items[0]), {"ident": "array@%s" % node.lineno, "elements": list(x.items), "sorted_unique": True})
             same = all(i.eq(x.items[0]) for i in x.items)
@@ -1168,6 +1177,31 @@ def np_arctan2(I, args, kwargs, node):
     return Arr(shape, v, "float", {}) if shape else v
 
 
+def np_minmax2(name):
+    def h(I, args, kwargs, node):
+        a, b = args[0], args[1]
+        sa = a.shape if isinstance(a, Arr) else ()
+        sb = b.shape if isinstance(b, Arr) else ()
+        shape = broadcast(I, sa, sb, node)
+        va, vb = val_of(a), val_of(b)
+        v = (alg.fmax if name == "max" else alg.fmin)(va, vb) if isinstance(va, Expr) and isinstance(vb, Expr) else Unknown("np.%simum" % name)
+        return Arr(shape, v, "float", {}) if shape else v
+
+    return h
+
+
+def np_clip(I, args, kwargs, node):
+    x, lo, hi = args[0], _kw(args, kwargs, 1, "a_min"), _kw(args, kwargs, 2, "a_max")
+    v = val_of(x)
+    if isinstance(v, Expr):
+        if isinstance(lo, Expr):
+            v = alg.fmax(v, lo)
+        if isinstance(hi, Expr):
+            v = alg.fmin(v, hi)
+        return Arr(x.shape, v, "float", {}) if isinstance(x, Arr) else v
+    return Unknown("np.clip")
+
+
 def np_sum(I, args, kwargs, node):
     x = args[0]
     if isinstance(x, Arr) and isinstance(x.val, Expr):
@@ -1352,6 +1386,11 @@ EXT = {
     "numpy.rad2deg": np_rad2deg,
     "numpy.arctan2": np_arctan2,
     "numpy.sum": np_sum,
+    "numpy.maximum": np_minmax2("max"),
+    "numpy.minimum": np_minmax2("min"),
+    "numpy.fmax": np_minmax2("max"),
+    "numpy.fmin": np_minmax2("min"),
+    "numpy.clip": np_clip,
     "numpy.cumsum": np_cumsum,
     "numpy.fft.fftfreq": fftfreq,
     "numpy.fft.fftshift": fftshift,
